@@ -13,12 +13,16 @@ import (
 	"testing"
 	"time"
 
+	topov1alpha1 "github.com/k8stopologyawareschedwg/noderesourcetopology-api/pkg/apis/topology/v1alpha1"
 	corev1 "k8s.io/api/core/v1"
 	"pgregory.net/rapid"
 
+	apiext "github.com/koordinator-sh/koordinator/apis/extension"
+	"github.com/koordinator-sh/koordinator/pkg/koordlet/metriccache"
 	maframework "github.com/koordinator-sh/koordinator/pkg/koordlet/metricsadvisor/framework"
 	"github.com/koordinator-sh/koordinator/pkg/koordlet/qosmanager/framework"
 	"github.com/koordinator-sh/koordinator/pkg/koordlet/resourceexecutor"
+	"github.com/koordinator-sh/koordinator/pkg/koordlet/statesinformer"
 	koordletutil "github.com/koordinator-sh/koordinator/pkg/koordlet/util"
 	"github.com/koordinator-sh/koordinator/pkg/koordlet/util/system"
 	"github.com/koordinator-sh/koordinator/pkg/util/cache"
@@ -29,6 +33,7 @@ import (
 // c12SnapExecutor forwards one updater at a time to the real executor and lets the harness look at the tree after each.
 type c12SnapExecutor struct {
 	inner resourceexecutor.ResourceUpdateExecutor
+	plain *resourceexecutor.ResourceUpdateExecutorImpl
 	after func(step string)
 }
 
@@ -38,11 +43,28 @@ func (e *c12SnapExecutor) Update(cacheable bool, u resourceexecutor.ResourceUpda
 	return ok, err
 }
 
+// UpdateBatch hands the WHOLE batch to the real executor (so that whatever it does with the batch as a whole — ordering, merging —
+// is exercised) and observes the tree after every single file write: each cgroup updater is replaced by a clone whose update
+// function runs the original updater's own update function (through a plain, non-caching executor) and then snapshots.
 func (e *c12SnapExecutor) UpdateBatch(cacheable bool, us ...resourceexecutor.ResourceUpdater) {
-	for _, u := range us { // a batch is a sequence of independent single updates
-		e.inner.UpdateBatch(cacheable, u)
-		e.after(fmt.Sprintf("write(%s,%s)", u.Path(), u.Value()))
+	if e.plain == nil {
+		e.plain = &resourceexecutor.ResourceUpdateExecutorImpl{Config: resourceexecutor.NewDefaultConfig(), ResourceCache: cache.NewCacheDefault()}
 	}
+	wrapped := make([]resourceexecutor.ResourceUpdater, 0, len(us))
+	for _, u := range us {
+		cu, ok := u.(*resourceexecutor.CgroupResourceUpdater)
+		if !ok {
+			panic(fmt.Sprintf("harness: unexpected updater type %T in a BE cpuset batch", u))
+		}
+		orig := cu.Clone()
+		w := cu.Clone().(*resourceexecutor.CgroupResourceUpdater).WithUpdateFunc(func(resourceexecutor.ResourceUpdater) error {
+			_, err := e.plain.Update(false, orig)
+			e.after(fmt.Sprintf("write(%s,%s)", orig.Path(), orig.Value()))
+			return err
+		})
+		wrapped = append(wrapped, w)
+	}
+	e.inner.UpdateBatch(cacheable, wrapped...)
 }
 
 func (e *c12SnapExecutor) LeveledUpdateBatch(us [][]resourceexecutor.ResourceUpdater) {
@@ -241,5 +263,455 @@ func TestVerifC12BECPUSetRewrite(t *testing.T) {
 			c.NonTrivial(v2, fmt.Sprint(nodes), roundsDesc)
 		}
 		c.Sample(map[string]any{"v2": v2, "nodes": nodes, "rounds": roundsDesc, "trace": trace})
+	})
+}
+
+// ---------------------------------------------------------------------------------------------------------------------------
+// applyBESuppressCPUSet under both kubelet cpu-manager policies, several rounds, the policy may switch between rounds.
+// static policy: BE root and pods are recovered to "all BE cpus" (node cpus minus the exclusively owned ones), only containers
+// get the suppressed set; none policy: the two-phase rewrite of the whole subtree.
+
+type c12Informer struct {
+	statesinformer.StatesInformer // nil: a method not overridden below would panic; the code under test uses only these
+	pods                          []*statesinformer.PodMeta
+	topo                          *topov1alpha1.NodeResourceTopology
+}
+
+func (f *c12Informer) GetAllPods() []*statesinformer.PodMeta           { return f.pods }
+func (f *c12Informer) GetNodeTopo() *topov1alpha1.NodeResourceTopology { return f.topo }
+
+type c12MetricCache struct {
+	metriccache.MetricCache
+	info *metriccache.NodeCPUInfo
+}
+
+func (f *c12MetricCache) Get(key interface{}) (interface{}, bool) {
+	if key == metriccache.NodeCPUInfoKey {
+		return f.info, true
+	}
+	return nil, false
+}
+
+// c12SyncEffective stands in for the kernel on cgroup v2, where the agent reads a cgroup's current cpuset from
+// cpuset.cpus.effective: effective = cpuset.cpus ∩ the parent's effective set, recomputed top-down (dirs are listed parents first).
+func c12SyncEffective(v2 bool, dirs []string, parents []int) {
+	if !v2 {
+		return
+	}
+	cpus, err1 := system.GetCgroupResource(system.CPUSetCPUSName)
+	eff, err2 := system.GetCgroupResource(system.CPUSetCPUSEffectiveName)
+	if err1 != nil || err2 != nil {
+		panic(fmt.Sprintf("harness: %v %v", err1, err2))
+	}
+	sets := make([]cpuset.CPUSet, len(dirs))
+	for i, d := range dirs {
+		b, _ := os.ReadFile(cpus.Path(d))
+		cs, err := cpuset.Parse(strings.Trim(string(b), "\n"))
+		if err != nil {
+			cs = cpuset.NewCPUSet()
+		}
+		if parents[i] >= 0 {
+			cs = cs.Intersection(sets[parents[i]])
+		}
+		sets[i] = cs
+		_ = os.WriteFile(eff.Path(d), []byte(cs.String()), 0o644)
+	}
+}
+
+func TestVerifC12BECPUSetPolicies(t *testing.T) {
+	rec := vk.New(t, "C12", "beCPUSetPolicies")
+	universe := []int{0, 1, 2, 3, 4, 5, 6, 7}
+	info := &metriccache.NodeCPUInfo{}
+	for _, id := range universe {
+		info.ProcessorInfos = append(info.ProcessorInfos, koordletutil.ProcessorInfo{CPUID: int32(id), CoreID: int32(id / 2), SocketID: 0, NodeID: 0})
+	}
+
+	rapid.Check(t, func(rt *rapid.T) {
+		c := rec.Begin()
+		defer c.End()
+		helper := system.NewFileTestUtil(t)
+		defer helper.Cleanup()
+		v2 := rapid.Bool().Draw(rt, "cgroupV2")
+		helper.SetCgroupsV2(v2)
+		res, err := system.GetCgroupResource(system.CPUSetCPUSName)
+		if err != nil {
+			rt.Fatalf("harness: %v", err)
+		}
+		beRoot := koordletutil.GetPodQoSRelativePath(corev1.PodQOSBestEffort)
+		kubepods := koordletutil.GetPodQoSRelativePath(corev1.PodQOSGuaranteed)
+
+		// cpus owned exclusively by an LSE pod: fixed for the whole case (a change of the exclusive set between rounds is a different
+		// rewrite — old values outside the new "all BE cpus" — and is not generated here); at least 3 cpus stay for BE
+		var exclusive []int
+		if rapid.Bool().Draw(rt, "hasLSE") {
+			first := rapid.IntRange(0, 3).Draw(rt, "lseCore") * 2
+			exclusive = []int{first, first + 1}
+			if rapid.Bool().Draw(rt, "lseTwoCores") {
+				exclusive = append(exclusive, (first+2)%8, (first+3)%8)
+			}
+		}
+		isExcl := map[int]bool{}
+		for _, id := range exclusive {
+			isExcl[id] = true
+		}
+		var allBE []int
+		for _, id := range universe {
+			if !isExcl[id] {
+				allBE = append(allBE, id)
+			}
+		}
+		allBESet := cpuset.NewCPUSet(allBE...)
+
+		type node struct {
+			Dir    string
+			Parent int
+			Depth  int // 0 kubepods, 1 BE root, 2 pod, 3 container
+			Set    []int
+		}
+		nodes := []node{{Dir: kubepods, Parent: -1, Depth: 0, Set: universe}}
+		rootSet := c12Subset(rt, allBE, "rootOld")
+		if rapid.Bool().Draw(rt, "rootStartsAtAllBE") {
+			rootSet = allBE
+		}
+		nodes = append(nodes, node{Dir: beRoot, Parent: 0, Depth: 1, Set: rootSet})
+		nPods := rapid.IntRange(1, 3).Draw(rt, "pods")
+		for p := 0; p < nPods; p++ {
+			ps := c12Subset(rt, rootSet, "podOld")
+			nodes = append(nodes, node{Dir: filepath.Join(beRoot, fmt.Sprintf("pod%d", p)), Parent: 1, Depth: 2, Set: ps})
+			pi := len(nodes) - 1
+			for k := 0; k < rapid.IntRange(0, 2).Draw(rt, "containers"); k++ {
+				nodes = append(nodes, node{Dir: filepath.Join(nodes[pi].Dir, fmt.Sprintf("c%d", k)), Parent: pi, Depth: 3, Set: c12Subset(rt, ps, "ctrOld")})
+			}
+		}
+		for _, n := range nodes {
+			p := res.Path(n.Dir)
+			_ = os.MkdirAll(filepath.Dir(p), 0o777)
+			if err := os.WriteFile(p, []byte(cpuset.NewCPUSet(n.Set...).String()), 0o644); err != nil {
+				rt.Fatalf("harness: %v", err)
+			}
+		}
+
+		effDirs, effParents := make([]string, len(nodes)), make([]int, len(nodes))
+		for i, n := range nodes {
+			effDirs[i], effParents[i] = n.Dir, n.Parent
+		}
+		c12SyncEffective(v2, effDirs, effParents)
+		inf := &c12Informer{topo: &topov1alpha1.NodeResourceTopology{}}
+		inf.topo.Name = "node0"
+		if len(exclusive) > 0 {
+			lse := &corev1.Pod{}
+			lse.Name, lse.Namespace, lse.UID = "lse", "ns", "lse-uid"
+			lse.Labels = map[string]string{apiext.LabelPodQoS: string(apiext.QoSLSE)}
+			lse.Annotations = map[string]string{apiext.AnnotationResourceStatus: fmt.Sprintf(`{"cpuset":%q}`, cpuset.NewCPUSet(exclusive...).String())}
+			inf.pods = []*statesinformer.PodMeta{{Pod: lse}}
+		}
+		setPolicy := func(static bool) {
+			if static {
+				inf.topo.Annotations = map[string]string{apiext.AnnotationKubeletCPUManagerPolicy: `{"policy":"static"}`}
+			} else if rapid.Bool().Draw(rt, "nonePolicyExplicit") {
+				inf.topo.Annotations = map[string]string{apiext.AnnotationKubeletCPUManagerPolicy: `{"policy":"none"}`}
+			} else {
+				inf.topo.Annotations = map[string]string{}
+			}
+		}
+
+		opt := &framework.Options{Config: framework.NewDefaultConfig(), MetricAdvisorConfig: maframework.NewDefaultConfig(),
+			StatesInformer: inf, MetricCache: &c12MetricCache{info: info}}
+		r := newTestCPUSuppress(opt)
+		inner := &resourceexecutor.ResourceUpdateExecutorImpl{Config: resourceexecutor.NewDefaultConfig(), ResourceCache: cache.NewCacheDefault()}
+		inner.Config.ResourceForceUpdateSeconds = 24 * 3600
+		var trace []string
+		dead := false
+		read := func(i int) (cpuset.CPUSet, string) {
+			b, _ := os.ReadFile(res.Path(nodes[i].Dir))
+			s := strings.Trim(string(b), "\n")
+			cs, err := cpuset.Parse(s)
+			if err != nil {
+				return cpuset.NewCPUSet(), s
+			}
+			return cs, s
+		}
+		snap := &c12SnapExecutor{inner: inner}
+		snap.after = func(step string) {
+			if dead {
+				return
+			}
+			c12SyncEffective(v2, effDirs, effParents)
+			cur := make([]string, len(nodes))
+			sets := make([]cpuset.CPUSet, len(nodes))
+			for i := range nodes {
+				sets[i], cur[i] = read(i)
+			}
+			trace = append(trace, fmt.Sprintf("%s => %v", strings.ReplaceAll(step, helper.TempDir, ""), cur))
+			for i, n := range nodes {
+				if n.Parent < 0 {
+					continue
+				}
+				if sets[i].IsEmpty() || !sets[i].IsSubsetOf(sets[n.Parent]) {
+					dead = true
+					c.Violation(rt, "becpuset-policy:child-outside-parent", "after %s: %s=%q not within parent %s=%q; exclusive=%v trace=%v", step, n.Dir, cur[i], nodes[n.Parent].Dir, cur[n.Parent], exclusive, trace)
+					return
+				}
+			}
+		}
+		r.executor = snap
+		stop := make(chan struct{})
+		defer close(stop)
+		r.init(stop)
+
+		rounds := rapid.IntRange(1, 4).Draw(rt, "rounds")
+		var desc []string
+		sawStatic, sawNone, sawNoneToStatic, sawStaticToNone, sawStaticOutsidePods := false, false, false, false, false
+		prevStatic, havePrev := false, false
+		for round := 0; round < rounds && !dead; round++ {
+			static := rapid.Bool().Draw(rt, "staticPolicy")
+			setPolicy(static)
+			cur, _ := read(1)
+			target := c12Subset(rt, allBE, "target")
+			tset := cpuset.NewCPUSet(target...)
+			if static {
+				sawStatic = true
+				for i := range nodes {
+					if nodes[i].Depth == 2 {
+						if s, _ := read(i); !tset.IsSubsetOf(s) {
+							sawStaticOutsidePods = true
+						}
+					}
+				}
+			} else {
+				sawNone = true
+			}
+			if havePrev && !prevStatic && static {
+				sawNoneToStatic = true
+			}
+			if havePrev && prevStatic && !static {
+				sawStaticToNone = true
+			}
+			prevStatic, havePrev = static, true
+			desc = append(desc, fmt.Sprintf("static=%v old=%s target=%s", static, cur.String(), tset.String()))
+			trace = append(trace, fmt.Sprintf("-- round %d: static=%v old(root)=%s target=%s", round, static, cur.String(), tset.String()))
+			if err := r.applyBESuppressCPUSet(c12ToInt32(target), c12ToInt32(cur.ToSlice())); err != nil {
+				rt.Fatalf("harness: applyBESuppressCPUSet: %v", err)
+			}
+			if dead {
+				break
+			}
+			for i := 1; i < len(nodes); i++ {
+				want := tset
+				if static && nodes[i].Depth < 3 {
+					want = allBESet // root and pods are handed back to the kubelet: all cpus BE may use
+				}
+				if s, raw := read(i); !s.Equals(want) {
+					dead = true
+					c.Violation(rt, "becpuset-policy:final-not-target", "round %d (static=%v): %s holds %q, want %q; exclusive=%v trace=%v", round, static, nodes[i].Dir, raw, want.String(), exclusive, trace)
+					break
+				}
+			}
+		}
+		c.ClassIf(v2, "cgroup-v2")
+		c.ClassIf(len(exclusive) > 0, "lse-exclusive-cpus")
+		c.ClassIf(sawStatic, "static-round")
+		c.ClassIf(sawNone, "none-round")
+		c.ClassIf(sawNoneToStatic, "switch:none->static")
+		c.ClassIf(sawStaticToNone, "switch:static->none")
+		c.ClassIf(sawStaticOutsidePods, "static-round:target-not-within-a-pod's-current-set")
+		c.Class(fmt.Sprintf("rounds:%d", rounds))
+		hasCtr := false
+		for _, n := range nodes {
+			hasCtr = hasCtr || n.Depth == 3
+		}
+		c.ClassIf(hasCtr, "has-containers")
+		if hasCtr && sawStaticOutsidePods {
+			c.NonTrivial(v2, fmt.Sprint(nodes), desc, exclusive)
+		}
+		c.Sample(map[string]any{"v2": v2, "exclusive": exclusive, "nodes": nodes, "rounds": desc, "trace": trace})
+	})
+}
+
+// ---------------------------------------------------------------------------------------------------------------------------
+// The "recover" rewrite (recoverCPUSetIfNeed: suppression disabled -> all levels; static policy -> root and pods, then containers)
+// when some of the cpus currently held by the BE subtree have meanwhile become exclusive (an LSE pod was admitted on them), i.e.
+// the recovered value does NOT cover the old one. Old and target assignments are both hierarchy-valid.
+func TestVerifC12BECPUSetRecover(t *testing.T) {
+	rec := vk.New(t, "C12", "beCPUSetRecover")
+	universe := []int{0, 1, 2, 3, 4, 5, 6, 7}
+	info := &metriccache.NodeCPUInfo{}
+	for _, id := range universe {
+		info.ProcessorInfos = append(info.ProcessorInfos, koordletutil.ProcessorInfo{CPUID: int32(id), CoreID: int32(id / 2), SocketID: 0, NodeID: 0})
+	}
+	rapid.Check(t, func(rt *rapid.T) {
+		c := rec.Begin()
+		defer c.End()
+		helper := system.NewFileTestUtil(t)
+		defer helper.Cleanup()
+		v2 := rapid.Bool().Draw(rt, "cgroupV2")
+		helper.SetCgroupsV2(v2)
+		res, err := system.GetCgroupResource(system.CPUSetCPUSName)
+		if err != nil {
+			rt.Fatalf("harness: %v", err)
+		}
+		beRoot := koordletutil.GetPodQoSRelativePath(corev1.PodQOSBestEffort)
+		kubepods := koordletutil.GetPodQoSRelativePath(corev1.PodQOSGuaranteed)
+
+		first := rapid.IntRange(0, 3).Draw(rt, "lseCore") * 2
+		exclusive := []int{first, first + 1}
+		if rapid.Bool().Draw(rt, "lseTwoCores") {
+			exclusive = append(exclusive, (first+2)%8, (first+3)%8)
+		}
+		isExcl := map[int]bool{}
+		for _, id := range exclusive {
+			isExcl[id] = true
+		}
+		var allBE []int
+		for _, id := range universe {
+			if !isExcl[id] {
+				allBE = append(allBE, id)
+			}
+		}
+		allBESet := cpuset.NewCPUSet(allBE...)
+
+		type node struct {
+			Dir    string
+			Parent int
+			Depth  int
+			Set    []int
+		}
+		nodes := []node{{Dir: kubepods, Parent: -1, Depth: 0, Set: universe}}
+		rootSet := universe // a BE subtree nobody has narrowed yet holds every cpu of the node
+		if !rapid.Bool().Draw(rt, "rootStartsAtAllCPUs") {
+			rootSet = c12Subset(rt, universe, "rootOld")
+		}
+		nodes = append(nodes, node{Dir: beRoot, Parent: 0, Depth: 1, Set: rootSet})
+		for p := 0; p < rapid.IntRange(1, 3).Draw(rt, "pods"); p++ {
+			ps := rootSet
+			if !rapid.Bool().Draw(rt, "podSameAsRoot") {
+				ps = c12Subset(rt, rootSet, "podOld")
+			}
+			nodes = append(nodes, node{Dir: filepath.Join(beRoot, fmt.Sprintf("pod%d", p)), Parent: 1, Depth: 2, Set: ps})
+			pi := len(nodes) - 1
+			for k := 0; k < rapid.IntRange(0, 2).Draw(rt, "containers"); k++ {
+				cs := ps
+				if !rapid.Bool().Draw(rt, "ctrSameAsPod") {
+					cs = c12Subset(rt, ps, "ctrOld")
+				}
+				nodes = append(nodes, node{Dir: filepath.Join(nodes[pi].Dir, fmt.Sprintf("c%d", k)), Parent: pi, Depth: 3, Set: cs})
+			}
+		}
+		oldOutside := false
+		for _, n := range nodes[1:] {
+			p := res.Path(n.Dir)
+			_ = os.MkdirAll(filepath.Dir(p), 0o777)
+			if err := os.WriteFile(p, []byte(cpuset.NewCPUSet(n.Set...).String()), 0o644); err != nil {
+				rt.Fatalf("harness: %v", err)
+			}
+			if n.Depth >= 2 && !cpuset.NewCPUSet(n.Set...).IsSubsetOf(allBESet) {
+				oldOutside = true
+			}
+		}
+		{
+			p := res.Path(kubepods)
+			_ = os.MkdirAll(filepath.Dir(p), 0o777)
+			_ = os.WriteFile(p, []byte(cpuset.NewCPUSet(universe...).String()), 0o644)
+		}
+
+		effDirs, effParents := make([]string, len(nodes)), make([]int, len(nodes))
+		for i, n := range nodes {
+			effDirs[i], effParents[i] = n.Dir, n.Parent
+		}
+		c12SyncEffective(v2, effDirs, effParents)
+		inf := &c12Informer{topo: &topov1alpha1.NodeResourceTopology{}}
+		inf.topo.Name = "node0"
+		lse := &corev1.Pod{}
+		lse.Name, lse.Namespace, lse.UID = "lse", "ns", "lse-uid"
+		lse.Labels = map[string]string{apiext.LabelPodQoS: string(apiext.QoSLSE)}
+		lse.Annotations = map[string]string{apiext.AnnotationResourceStatus: fmt.Sprintf(`{"cpuset":%q}`, cpuset.NewCPUSet(exclusive...).String())}
+		inf.pods = []*statesinformer.PodMeta{{Pod: lse}}
+
+		opt := &framework.Options{Config: framework.NewDefaultConfig(), MetricAdvisorConfig: maframework.NewDefaultConfig(),
+			StatesInformer: inf, MetricCache: &c12MetricCache{info: info}}
+		r := newTestCPUSuppress(opt)
+		inner := &resourceexecutor.ResourceUpdateExecutorImpl{Config: resourceexecutor.NewDefaultConfig(), ResourceCache: cache.NewCacheDefault()}
+		inner.Config.ResourceForceUpdateSeconds = 24 * 3600
+		var trace []string
+		dead := false
+		read := func(i int) (cpuset.CPUSet, string) {
+			b, _ := os.ReadFile(res.Path(nodes[i].Dir))
+			s := strings.Trim(string(b), "\n")
+			cs, err := cpuset.Parse(s)
+			if err != nil {
+				return cpuset.NewCPUSet(), s
+			}
+			return cs, s
+		}
+		snap := &c12SnapExecutor{inner: inner}
+		snap.after = func(step string) {
+			if dead {
+				return
+			}
+			c12SyncEffective(v2, effDirs, effParents)
+			cur := make([]string, len(nodes))
+			sets := make([]cpuset.CPUSet, len(nodes))
+			for i := range nodes {
+				sets[i], cur[i] = read(i)
+			}
+			trace = append(trace, fmt.Sprintf("%s => %v", strings.ReplaceAll(step, helper.TempDir, ""), cur))
+			for i, n := range nodes {
+				if n.Parent < 0 {
+					continue
+				}
+				if sets[i].IsEmpty() || !sets[i].IsSubsetOf(sets[n.Parent]) {
+					dead = true
+					sig := "becpuset-recover:child-outside-parent"
+					if strings.Contains(step, res.Path(nodes[n.Parent].Dir)+",") { // the write that broke it narrowed the PARENT below its child
+						sig = "becpuset-recover:parent-narrowed-below-child:recover-writes-top-down"
+					}
+					c.Violation(rt, sig, "after %s: %s=%q not within parent %s=%q; exclusive=%v trace=%v", step, n.Dir, cur[i], nodes[n.Parent].Dir, cur[n.Parent], exclusive, trace)
+					return
+				}
+			}
+		}
+		r.executor = snap
+		stop := make(chan struct{})
+		defer close(stop)
+		r.init(stop)
+
+		static := rapid.Bool().Draw(rt, "staticPolicyRound")
+		var tset cpuset.CPUSet
+		if static {
+			inf.topo.Annotations = map[string]string{apiext.AnnotationKubeletCPUManagerPolicy: `{"policy":"static"}`}
+			target := c12Subset(rt, allBE, "target")
+			tset = cpuset.NewCPUSet(target...)
+			cur, _ := read(1)
+			trace = append(trace, fmt.Sprintf("-- static round: old(root)=%s allBE=%s target=%s", cur.String(), allBESet.String(), tset.String()))
+			if err := r.applyBESuppressCPUSet(c12ToInt32(target), c12ToInt32(cur.ToSlice())); err != nil {
+				rt.Fatalf("harness: applyBESuppressCPUSet: %v", err)
+			}
+		} else {
+			inf.topo.Annotations = map[string]string{}
+			trace = append(trace, fmt.Sprintf("-- recover all levels: allBE=%s", allBESet.String()))
+			r.recoverCPUSetIfNeed(koordletutil.ContainerCgroupPathRelativeDepth)
+		}
+		if !dead {
+			for i := 1; i < len(nodes); i++ {
+				want := allBESet
+				if static && nodes[i].Depth == 3 {
+					want = tset
+				}
+				if s, raw := read(i); !s.Equals(want) {
+					dead = true
+					c.Violation(rt, "becpuset-recover:final-not-target", "%s holds %q, want %q; exclusive=%v trace=%v", nodes[i].Dir, raw, want.String(), exclusive, trace)
+					break
+				}
+			}
+		}
+		c.ClassIf(v2, "cgroup-v2")
+		c.ClassIf(static, "static-round")
+		c.ClassIf(!static, "recover-all-levels")
+		c.ClassIf(oldOutside, "a-pod-or-container-holds-a-now-exclusive-cpu")
+		c.ClassIf(!oldOutside, "old-values-within-all-BE-cpus")
+		if oldOutside {
+			c.NonTrivial(v2, static, fmt.Sprint(nodes), exclusive, tset.String())
+		}
+		c.Sample(map[string]any{"v2": v2, "static": static, "exclusive": exclusive, "nodes": nodes, "trace": trace})
 	})
 }
